@@ -446,7 +446,21 @@ static std::string diagnose(char target, const Toks& toks, const std::vector<Nod
     const int rk = op_rank(x.s);
     const bool undef_scalar = (a.shape == SC && !a.e[0]) || (b.shape == SC && !b.e[0]);
     const bool any_scalar = (a.shape == SC && n[x.l].k != 'n') || (b.shape == SC && n[x.r].k != 'n');
-    if (rk == 0) return any_scalar ? "C17:uop:scalar-not-broadcast" : "C17:uop:" + shapes + thr;
+    // a scalar ^ set below T that agreed stand-alone only because all elements coincide still has the wrong (scalar) shape
+    auto unbroadcast_pow_below = [&]() {
+        std::vector<int> st{x.l, x.r};
+        while (!st.empty()) {
+            int c = st.back(); st.pop_back();
+            if (c < 0) continue;
+            if (n[c].k == 'b' && n[c].s == "^") {
+                try { Val pl = ref_eval(n, n[c].l), pr = ref_eval(n, n[c].r);
+                      if ((pl.shape == SC && n[n[c].l].k != 'n') != (pr.shape == SC && n[n[c].r].k != 'n') || (pl.shape == SC) != (pr.shape == SC)) return true; } catch (const Unspec&) {}
+            }
+            st.push_back(n[c].l); st.push_back(n[c].r);
+        }
+        return false;
+    };
+    if (rk == 0) { if (any_scalar) return "C17:uop:scalar-not-broadcast"; if (unbroadcast_pow_below()) return "C17:pow:scalar-not-broadcast"; return "C17:uop:" + shapes + thr; }
     if (rk == 4) {
         if (!r.threw && r.shape_err.empty()) {
             bool ue = false; for (size_t i : idx) { OD l = el(a, i), rr = el(b, i); if (l && !rr && i < r.e.size() && r.e[i]) ue = true; }
@@ -457,11 +471,14 @@ static std::string diagnose(char target, const Toks& toks, const std::vector<Nod
     if (undef_scalar && r.threw) return "C17:undef-scalar-operand:throws";
     if (rk == 1) {
         bool zero = false, neg = false;
-        for (size_t i : idx) { OD l = el(a, i), rr = el(b, i); if (!l || !rr) continue; if (*l == 0 && *rr != 0) zero = true; if (*l < 0) neg = true; }
+        // "zero": the relative difference (l - r) / l is not finite (l == 0 or so tiny that the quotient overflows)
+        for (size_t i : idx) { OD l = el(a, i), rr = el(b, i); if (!l || !rr) continue; if (*l != *rr && !std::isfinite((*l - *rr) / *l)) zero = true; if (*l < 0) neg = true; }
         if (zero && (r.threw || !neg)) return "C17:cmp:zero-lhs";
         if (neg) return "C17:cmp:neg-lhs:" + x.s;
+        if (unbroadcast_pow_below()) return "C17:pow:scalar-not-broadcast";
         return "C17:cmp:" + x.s + ":" + shapes + thr;
     }
+    if (unbroadcast_pow_below()) return "C17:pow:scalar-not-broadcast";
     return "C17:arith:" + shapes + thr;
 }
 
